@@ -1,26 +1,32 @@
-"""C34, second half - what every transaction kind claims in the pool's per-resource indexes.
+"""C34, second half - what every transaction kind claims in the pool's per-resource indexes,
+and what a connected block does to them.
 
  PoolKeys.tla states, per transaction kind, the set of <<slot, key>> claims of a transaction
  (side-chain withdrawal hashes for payload v0 / v1 / v2 with plain outputs in front of or
  between the withdraw outputs, deposit returns, CR DID / nickname / key, every CRC proposal
  type, reviews, trackings, withdrawals, council-member node claims, special transactions,
  staking / NFT operations, producer owner / node keys and nicknames, spent outpoints) for
- eight families of templates that collide on purpose.  TLC explores every sequence of
- MaxOps (quick 3, thorough 4) Append / Remove operations per family (invariants ConflictFree,
- IndexAgrees, OneOwner) and prints one behaviour per edge; harness/cmd/poolkeys builds every
- template as a real transaction and replays the behaviours on a real mempool.TxPool (VerifyTx
- + AppendTx, CleanSubmittedTransactions), comparing after every step the verdict (both
- directions are violations) and the complete content of every conflict slot with the spec's
- index (same slots, same keys, every key owned by the expected transaction).
+ eight families of templates that collide on purpose, and two pool operations:
+   Append(t)  = the pool half of appendToTxPool (TxPool.VerifAppendUnchecked, hook
+                mempool/verif_c34_append.go: side-chain pow replacement, VerifyTx, size check,
+                AppendTx, doAddTransaction), so the transaction list and the fee list are filled;
+   Connect(t) = CleanSubmittedTransactions on a block holding the one transaction t, pooled or
+                not (cleanTransactions: spenders of t's inputs leave, t's keys are deleted from
+                the index whoever owns them; cleanSideChainPowTx; cleanCanceledProducerAndCR: a
+                CancelProducer / UnregisterCR removes the pooled updates of and votes for that
+                producer / CR), modelled as the code does it, transient states included.
+ TLC explores every sequence of MaxOps (quick 3, thorough 4) operations per family (invariants
+ IndexAgrees - a pooled transaction owns all its claims except those a block dropped by the
+ rules above -, OneOwner, ConflictFree, action property DropsJustified) and prints one
+ behaviour per edge; harness/cmd/poolkeys replays them on a real mempool.TxPool, comparing
+ after every step the verdict (both directions are violations), the pool's membership
+ (transaction list, fee list) and the complete content of every conflict slot (same slots,
+ same keys, every key owned by the expected transaction).
 
  Called from C34.py:   import C34_keys; C34_keys.run_all(chk)
  (run_all(chk, families=[...]) restricts the run to some families of PoolKeys.tla.)
-
- Family crtail holds Schnorr CR registrations whose public key ends in the byte of the
- CHECKSIG / CHECKMULTISIG opcode (strRegisterCRPublicKey used to classify the Schnorr script by
- its last byte: repaired in /repo, see known_findings.json).
 """
-import concurrent.futures, json, os
+import concurrent.futures, json, os, subprocess, sys
 import vf
 
 FAMILIES = ["side", "dpos", "cr", "crtail", "prop1", "prop2", "special", "stake"]
@@ -29,9 +35,10 @@ CFG = """SPECIFICATION Spec
 CONSTANTS
   Family = "%(family)s"
   MaxOps = %(maxops)d
-  WithRemove = %(remove)s
+  Connects = "%(connects)s"
 VIEW view
 INVARIANTS ConflictFree IndexAgrees OneOwner
+PROPERTIES DropsJustified
 ACTION_CONSTRAINT %(emit)s
 CHECK_DEADLOCK FALSE
 """
@@ -39,15 +46,63 @@ CHECK_DEADLOCK FALSE
 JVM = ("-XX:-UseParallelGC", "-XX:+UseSerialGC", "-XX:TieredStopAtLevel=1")
 
 
-def _tlc(family, maxops, emit="Emit"):
-    text = CFG % dict(family=family, maxops=maxops, remove="TRUE", emit=emit)
+NSHARD = 8
+
+
+def _extract(res, maxops):
+    """Every behaviour TLC printed (one per explored edge), sorted.  Behaviours that are a prefix of another one are
+    replayed as well (cheaper than finding them among some 10^5 lines)."""
+    raw = set()
+    with open(res["outfile"], errors="replace") as f:
+        for line in f:
+            if line.startswith('<<"TRACE", '):
+                raw.add(line.rstrip("\n")[len('<<"TRACE", '):-2])
+    behs = []
+    for x in sorted(raw):
+        try:
+            behs.append(json.loads(json.loads(x)))
+        except ValueError:
+            raise vf.Infra("cannot parse behaviour printed by TLC: " + x[:200])
+    return behs, dict(edges_total=len(raw), maximal=sum(1 for b in behs if len(b) == maxops), selected=len(behs))
+
+
+def _spawn_job(job):
+    """One worker process per family (this file run as a script): the extraction of some 10^4..10^5 printed behaviours
+    is Python work that threads would serialise."""
+    family, maxops, connects = job
+    env = dict(os.environ, PYTHONPATH=os.path.dirname(os.path.abspath(vf.__file__)))
+    p = subprocess.run([sys.executable, os.path.abspath(__file__), "--job", family, str(maxops), connects, vf.scratch()],
+                       env=env, capture_output=True, text=True, timeout=1700)
+    if p.returncode != 0:
+        raise vf.Infra("PoolKeys worker for family %s failed:\n%s" % (family, (p.stdout + p.stderr)[-3000:]))
+    return json.loads(p.stdout.splitlines()[-1])
+
+
+def _family_job(args):
+    """Runs in a worker process: TLC on one family, extraction, shard files pk-<family>-<i>.jsonl."""
+    family, maxops, connects = args
+    text = CFG % dict(family=family, maxops=maxops, connects=connects, emit="Emit")
     r = vf.tlc("Chain", "PoolKeys", "pk-%s-%d.cfg" % (family, maxops), cfg_text=text, workers=1, timeout=1500, jvm=JVM)
-    return family, maxops, r
-
-
-def _shape_key(b):
-    last = b[-1]
-    return "%s:%s:%s" % (last.get("act"), last.get("def", {}).get("kind"), last.get("exp", {}).get("verdict"))
+    out = dict(family=family, maxops=maxops, res={k: v for k, v in r.items() if k != "tail"}, tail=r["tail"][-3000:], stats={}, n=0, picks={})
+    if r["rc"] != 0 or r["timed_out"]:
+        return out
+    behs, st = _extract(r, maxops)
+    out["stats"], out["n"] = st, len(behs)
+    for i in range(NSHARD):
+        vf.write_json_lines(os.path.join(vf.scratch(), "pk-%s-%d.jsonl" % (family, i)), behs[i::NSHARD])
+    if family == "side":        # behaviours for the binding self-tests
+        for b in behs:
+            last = b[-1]
+            if "evict" not in out["picks"] and last["act"] == "Connect" and last["exp"]["evicted"]:
+                out["picks"]["evict"] = b
+            if last["act"] != "Append" or not isinstance(last.get("index"), dict):
+                continue
+            if "ok" not in out["picks"] and last["exp"]["verdict"] == "ok" and last["index"].get("SidechainTxHashes"):
+                out["picks"]["ok"] = b
+            if "conflict" not in out["picks"] and last["exp"]["verdict"] == "conflict" and last["exp"]["slots"] == ["SidechainTxHashes"]:
+                out["picks"]["conflict"] = b
+    os.remove(r["outfile"])
+    return out
 
 
 def run_all(chk, families=None):
@@ -55,42 +110,36 @@ def run_all(chk, families=None):
     binary = vf.go_build("poolkeys")
     env = {"TMPDIR": "/dev/shm"} if os.path.isdir("/dev/shm") else None
     # quick: every sequence of 3 operations per family; thorough: of 4 (the behaviours of depth 3 are
-    # prefixes of those of depth 4)
+    # prefixes of those of depth 4).  Blocks connected: Related(t) of PoolKeys.tla (the block's transaction is
+    # pooled, claims a key the index holds, cancels a producer / CR, or is the family's unrelated probe)
     maxops = 4 if thorough else 3
-    jobs = [(f, maxops) for f in (families or FAMILIES)]
-    vf._copy_spec(os.path.join(vf.SPEC, "Chain"))      # before the threads start
-    with concurrent.futures.ThreadPoolExecutor(max_workers=8) as ex:
-        results = list(ex.map(lambda j: _tlc(*j), jobs))
-    first_ok = None
-    first_conflict = None
-    allb = []
-    for family, maxops, r in results:
-        vf.tlc_ok(r, "PoolKeys %s MaxOps=%d" % (family, maxops))
-        chk.add_tlc(r, "PoolKeys.tla family %s, MaxOps=%d (exhaustive; ConflictFree, IndexAgrees, OneOwner)" % (family, maxops))
-        behs, st = vf.behaviours(r, strat_key=_shape_key)
-        st.pop("classes", None)
-        st["label"] = "PoolKeys %s MaxOps=%d" % (family, maxops)
+    jobs = [(f, maxops, "related") for f in (families or FAMILIES)]
+    vf._copy_spec(os.path.join(vf.SPEC, "Chain"))      # scratch directory and spec copy exist before the workers start
+    with concurrent.futures.ThreadPoolExecutor(max_workers=min(8, len(jobs))) as ex:
+        results = list(ex.map(_spawn_job, jobs))
+    picks = {}
+    total = 0
+    for o in results:
+        r = dict(o["res"], tail=o["tail"])
+        vf.tlc_ok(r, "PoolKeys %s MaxOps=%d" % (o["family"], o["maxops"]))
+        chk.add_tlc(r, "PoolKeys.tla family %s, MaxOps=%d (exhaustive; ConflictFree, IndexAgrees, OneOwner, DropsJustified)" % (o["family"], o["maxops"]))
+        st = dict(o["stats"], label="PoolKeys %s MaxOps=%d" % (o["family"], o["maxops"]))
         chk.cov.setdefault("extraction", []).append(st)
-        if not behs:
-            raise vf.Infra("no behaviours extracted for family " + family)
-        allb += behs
-        if family == "side":
-            for b in behs:
-                last = b[-1]
-                if last["act"] != "Append" or not isinstance(last.get("index"), dict):
-                    continue
-                if first_ok is None and last["exp"]["verdict"] == "ok" and last["index"].get("SidechainTxHashes"):
-                    first_ok = b
-                if first_conflict is None and last["exp"]["verdict"] == "conflict" and last["exp"]["slots"] == ["SidechainTxHashes"]:
-                    first_conflict = b
-    nshard = 8 if thorough else 4
-    for i in range(nshard):
-        vf.write_json_lines(os.path.join(vf.scratch(), "pk-all-%d.jsonl" % i), allb[i::nshard])
-    recs = vf.run_sharded(binary, lambda i, n: ["replay", os.path.join(vf.scratch(), "pk-all-%d.jsonl" % i)], shards=nshard)
-    chk.absorb(recs, "pool slot keys, families %s, MaxOps=%d: verdict and full slot content after every step" %
-               (", ".join(f for f, _ in jobs), maxops))
+        if not o["n"]:
+            raise vf.Infra("no behaviours extracted for family " + o["family"])
+        total += o["n"]
+        picks.update(o["picks"])
+    for i in range(NSHARD):          # shard i = the i-th part of every family
+        with open(os.path.join(vf.scratch(), "pk-all-%d.jsonl" % i), "wb") as w:
+            for o in results:
+                with open(os.path.join(vf.scratch(), "pk-%s-%d.jsonl" % (o["family"], i)), "rb") as f:
+                    w.write(f.read())
+    recs = vf.run_sharded(binary, lambda i, n: ["replay", os.path.join(vf.scratch(), "pk-all-%d.jsonl" % i)], shards=NSHARD)
+    chk.absorb(recs, "pool slot keys, families %s, MaxOps=%d: verdict, pool membership and full slot content after every step" %
+               (", ".join(j[0] for j in jobs), maxops))
+    first_ok, first_conflict, first_evict = picks.get("ok"), picks.get("conflict"), picks.get("evict")
     # binding self-tests: (1) an expected index entry is dropped, (2) a conflict is expected to be accepted
-    if first_ok is None or first_conflict is None:
+    if first_ok is None or first_conflict is None or first_evict is None:
         if families and "side" not in families:
             return
         raise vf.Infra("no behaviour for the binding self-tests")
@@ -100,6 +149,14 @@ def run_all(chk, families=None):
         del bad1[-1]["index"]["SidechainTxHashes"]
     bad2 = json.loads(json.dumps(first_conflict))
     bad2[-1]["exp"]["verdict"] = "ok"
+    bad3 = json.loads(json.dumps(first_evict))
+    bad3[-1]["pool"] = sorted(bad3[-1]["pool"] + bad3[-1]["exp"]["evicted"][:1])
+    p = os.path.join(vf.scratch(), "pk-bad3.jsonl")
+    vf.write_json_lines(p, [bad3])
+    recs, _ = vf.run_driver(binary, ["replay", p], env=env)
+    chk.selftest("pool keys replay: a transaction the connected block evicts expected to stay",
+                 any(x.get("kind") == "violation" and x.get("key", "").startswith("C34:pool-membership:") and ":lost" in x.get("key", "")
+                     for x in recs))
     for name, bad, want in (("expected index entry dropped", bad1, ":extra"), ("conflict expected to be accepted", bad2, "~spurious")):
         p = os.path.join(vf.scratch(), "pk-bad.jsonl")
         vf.write_json_lines(p, [bad])
@@ -108,14 +165,27 @@ def run_all(chk, families=None):
                      any(x.get("kind") == "violation" and x.get("key", "").startswith("C34:slot-key:SidechainTxHashes") and
                          x.get("key", "").endswith(want) for x in recs))
     chk.assumptions += [
-        "PoolKeys: the conflict slots are driven through TxPool.VerifyTx / AppendTx (no transaction validation, unsigned "
-        "templates) and emptied through CleanSubmittedTransactions on a one-transaction block; the transaction list and fee "
-        "list of the pool stay empty (they are Mempool.tla's subject)",
-        "PoolKeys: templates of one family interact (%s); MaxOps = 3 operations per behaviour (thorough: 4); NextTurnDPOSInfo "
-        "is not removed (the block cleanup handles it through the pool's transaction list); the producers a CancelProducer "
-        "names are put into the DPoS state by State.ProcessBlock on their registrations" % ", ".join(FAMILIES),
+        "PoolKeys: transactions enter the pool through the pool half of appendToTxPool (verif hook VerifAppendUnchecked: no chain "
+        "validation, unsigned templates) and blocks reach it through CleanSubmittedTransactions on a one-transaction block; the "
+        "post-block CheckAndCleanAllTransactions (chain validation of every pooled transaction) is Mempool.tla's subject, so "
+        "the transient states a connected block leaves are part of the model",
+        "PoolKeys: templates of one family interact (%s); MaxOps = 3 operations per behaviour (thorough: 4); blocks connected: "
+        "Related(t) of PoolKeys.tla; the producers a CancelProducer names are put into the DPoS state by State.ProcessBlock on "
+        "their registrations; the node's origin arbiters are harness keys so that a side-chain pow transaction can be signed "
+        "by the arbiter on duty" % ", ".join(FAMILIES),
         "PoolKeys: all 39 slots of conflictmanager.go are exercised; transaction kinds without a slot of their own "
-        "(SideChainPow, UpdateVersion, RecordSponsor, CRAssetsRectify, TransferCrossChainAsset, RevertToPOW ...) claim "
-        "outpoints only, as the TransferAsset templates do; multi-signature / Schnorr variants of producer payloads, "
-        "UnregisterCR and ProcessProducer are not separate templates (their key functions do not read the version)",
+        "(UpdateVersion, RecordSponsor, CRAssetsRectify, TransferCrossChainAsset, RevertToPOW ...) claim outpoints only, as the "
+        "TransferAsset templates do; multi-signature / Schnorr variants of producer payloads, UnregisterCR and ProcessProducer "
+        "are not separate templates (their key functions do not read the version)",
     ]
+
+
+if __name__ == "__main__":
+    # worker: C34_keys.py --job <family> <maxops> <connects> <scratch dir of the check>
+    if len(sys.argv) == 6 and sys.argv[1] == "--job":
+        vf._scratch = sys.argv[5]
+        try:
+            print(json.dumps(_family_job((sys.argv[2], int(sys.argv[3]), sys.argv[4]))))
+        except vf.Infra as e:
+            print("INFRA", e)
+            sys.exit(2)
